@@ -9,6 +9,7 @@
 -/
 import Robotools.Proofs.ReplayLemmas
 import Robotools.Proofs.AmtLemmas
+import Robotools.Proofs.PosInj
 import Mathlib.Tactic.Ring
 import Mathlib.Tactic.Linarith
 import Mathlib.Data.List.Sort
@@ -787,12 +788,15 @@ def SrcOK (dev : Device) (g : Geom) : Prop :=
 /-- Side conditions under which the `R;` record of `distribute` means what the tracking did: source and
     destination are different labware, the device numbers the source range the way the record is read
     (EVO; on a Fluent only troughs with one virtual row — known finding F3), a non-negative column index,
-    and destination wells with pairwise distinct positions (the quantifier of C01). -/
+    and destination wells with pairwise distinct positions (the quantifier of C01): either because the device
+    numbers the destination labware injectively (`PosInj`: every labware on an EVO, everything but a trough
+    with several virtual rows on a Fluent — a well listed twice is refused by `distribute` itself since the
+    repair of F13), or because the positions of this particular call are pairwise distinct. -/
 structure DistOK (dev : Device) (S D : Labware) (a : DistArgs) : Prop where
   ne : a.src ≠ a.dst
-  src : SrcOK dev S.geom
+  src : ∀ v, S.geom.vrows = some v → SrcOK dev S.geom   -- (a source that is no trough is refused)
   col : 0 ≤ a.srcCol
-  nodup : ∀ ps, (a.dstWells.flattenF.mapM fun w => dev.pos D.geom w) = .ok ps → ps.Nodup
+  nodup : PosInj dev D.geom ∨ ∀ ps, (a.dstWells.flattenF.mapM fun w => dev.pos D.geom w) = .ok ps → ps.Nodup
 
 theorem resolve_trough_col {g : Geom} {vr : Nat} (hvr : g.vrows = some vr) {c i : Nat}
     (h : g.resolveFlat (wellId 0 c) = some i) : i = c ∧ c < g.cols := by
